@@ -182,6 +182,42 @@ def nesting_rule(repo: Repo, rep: Report, rid: str) -> None:
               "_make_array no longer marks x[] as null-terminated", ma.loc())
 
 
+# functions that evaluate an expression without a field context because no structure is being defined there, with the reason
+NO_FIELD_CONTEXT = {
+    "parser.py:TokenParser._constant": "#define values: there is no enclosing structure",
+    "parser.py:CStyleParser._constants": "#define values: there is no enclosing structure",
+    "parser.py:CStyleParser._enums": "enum member values of the legacy parser: no enclosing structure (earlier members are not supported there)",
+}
+
+
+def parse_time_count_rule(repo: Repo, rep: Report, rid: str) -> None:
+    rep.rule(rid, "an array size is folded to a number at definition time only when it cannot mean a field: every context-free Expression.evaluate() "
+                  "in the parsers outside the #define / enum-value sites is preceded by a test of the expression's identifiers (.tokens) against the "
+                  "fields declared so far - at read time a field of that name takes precedence over a constant")
+    n = 0
+    seen_exempt = 0
+    for fi in repo.module("parser.py").functions.values():
+        calls = [c for c in walk_body(fi.node.body) if isinstance(c, ast.Call) and call_name(c) == "evaluate" and not c.args and not c.keywords]
+        if not calls:
+            continue
+        if fi.key in NO_FIELD_CONTEXT:
+            seen_exempt += 1
+            rep.ok(rid, f"{fi.key}:evaluate()", f"exempt: {NO_FIELD_CONTEXT[fi.key]}", fi.loc(calls[0]))
+            continue
+        g = CFG(fi.node)
+        for c in calls:
+            n += 1
+            node = next((x for x in g.nodes if x.expr() is not None and any(y is c for y in ast.walk(x.expr()))), None)
+            guards = {x.id for x in g.nodes if x.kind == "if" and any(isinstance(a_, ast.Attribute) and a_.attr == "tokens" for a_ in ast.walk(x.ast.test))}
+            ok = node is not None and bool(guards) and g.must_pass(g.entry.id, node.id, guards)
+            rep.check(ok, rid, f"{fi.key}:evaluate()", "folded only after its identifiers were checked against the declared fields",
+                      f"{fi.qualname} evaluates an array-size expression without field context and without looking at its identifiers: if one of them is "
+                      "also an earlier field of the structure (and a #define of the same name exists) the size is frozen to the constant, although at read "
+                      "time the field must win (#define n 2; struct {{ uint8 n; uint8 d[n]; }})".replace("{{", "{").replace("}}", "}"), fi.loc(c))
+    rep.floor(rid, "context-free array-size evaluations", n, 1)
+    rep.floor(rid, "exempt define / enum sites", seen_exempt, 2)
+
+
 def run(repo: Repo, rep: Report, tier: str) -> None:
     clamp_rule(repo, rep, "C07.R1")
     context_rule(repo, rep, "C07.R2")
@@ -199,5 +235,7 @@ def run(repo: Repo, rep: Report, tier: str) -> None:
     from .c02 import default_substitution_rule
 
     default_substitution_rule(repo, rep, "C07.R10")
+    parse_time_count_rule(repo, rep, "C07.R11")
+
 
 
